@@ -218,12 +218,14 @@ def v_closure(vfile):
             src = open(os.path.join(COQ, f)).read()
         except OSError:
             continue
-        for m in re.finditer(r"From\s+LI\s+Require\s+(?:Import|Export)?\s*([^.]*(?:\.[A-Za-z_][^.\s]*)*)\.\s", src):
+        src = strip_comments(src)
+        for m in re.finditer(r"From\s+LI\s+Require\s+(?:Import\s+|Export\s+)?(.*?)\.(?=\s|$)", src, re.S):
             for name in m.group(1).split():
                 todo.append("theories/" + name.replace(".", "/") + ".v")
-        for m in re.finditer(r"Require\s+(?:Import|Export)?\s+((?:LI\.[\w.]+\s*)+)\.", src):
+        for m in re.finditer(r"(?<!LI\s)Require\s+(?:Import\s+|Export\s+)?(.*?)\.(?=\s|$)", src, re.S):
             for name in m.group(1).split():
-                todo.append("theories/" + name[3:].replace(".", "/") + ".v")
+                if name.startswith("LI."):
+                    todo.append("theories/" + name[3:].replace(".", "/") + ".v")
     return [f for f in seen if os.path.exists(os.path.join(COQ, f))]
 
 
